@@ -3,7 +3,7 @@
    forexpand.go (run against gmars on every run: hook kind 21 and whole programs),
    Render.unroll the manual unrolling of an abstract program. *)
 From GM Require Import Base Text Token Lexer Scanner ExprSpec ExprEval ForExpand Parser Compile Sim Prog Meaning Render AsmSpec
-     C05Lexer C05Expander C08Proof C08Block C08Scan C08Passes C08Flat C03Parse C03Compile C03Flat C08Subst.
+     C05Lexer C05Expander C08Proof C08Block C08Scan C08Passes C08Flat C03Parse C03Compile C03EquCompile C03Flat C08Subst C08Count.
 From Coq Require Import Lia.
 Open Scope N_scope.
 
@@ -303,6 +303,17 @@ Proof.
   cbn [subst_elem] in *. split; [exact H|reflexivity].
 Qed.
 Print Assumptions C08_copy_renders_partial.
+
+(* the count of a block: ExpandAndEvaluate over the EQU definitions in front of the block (as the scanner hands them
+   over, followed by the predefined constants) gives the value the reference gives the count expression over those
+   definitions - for every expression without negative literals, definitions nested to any depth along a rank *)
+Theorem C08_block_count_partial :
+  forall spell cfg ev, spell_ok spell (map fst ev) ->
+  forall rkN e v, env_nn ev -> ranked spell ev rkN -> Forall nn_ntok (nprint e) ->
+    value_at (mconf_of cfg) ev [] 0 e = MV v ->
+    expand_and_evaluate (etoks spell e) (with_constants cfg (equ_entries spell ev)) = Some (EOk v).
+Proof. exact block_count. Qed.
+Print Assumptions C08_block_count_partial.
 
 (* missing: that the token-level relation `unrolls` holds between the rendering of an abstract program and the
    rendering of its unrolling (Render.unroll) for every program - each instance is a finite derivation like the
